@@ -31,8 +31,10 @@ fn pool() -> Vec<Op> {
 // ------------------------------------------------------------------------------------------ JSON terms
 fn jdoc(d: (u64, u64)) -> Value { tup(vec![json!(d.0), json!(d.1)]) }
 fn jopt(x: Option<u64>) -> Value { match x { Some(v) => some(json!(v)), None => Value::Null } }
-fn jop(o: &Op) -> Value {
+fn jop(o: &Op) -> Value { jop_hit(o, false) }
+fn jop_hit(o: &Op, hit: bool) -> Value {
     match o {
+        Op::Get { id } => ctor("OGet", vec![json!(id), json!(hit)]),
         Op::Add { a, b } => ctor("OAdd", vec![jdoc((*a, *b))]),
         Op::Update { id, a, b } => ctor("OUpdate", vec![json!(id), tup(vec![jopt(*a), jopt(*b)])]),
         Op::Remove { id } => ctor("ORemove", vec![json!(id)]),
@@ -45,7 +47,7 @@ fn jret(o: &Op, r: &Ret) -> Value {
         (Op::Add { .. }, Ret::Id(i)) => ctor("RId", vec![json!(i)]),
         (_, Ret::Doc(a, b)) => ctor("RDoc", vec![jdoc((*a, *b))]),
         (_, Ret::NoDoc) => ctor("RNone", vec![]),
-        (Op::Update { .. }, Ret::NotFound) => ctor("RNotFound", vec![]),
+        (Op::Update { .. } | Op::Get { .. }, Ret::NotFound) => ctor("RNotFound", vec![]),
         (Op::Flush, Ret::Bool(_)) => ctor("RFlushed", vec![]),
         _ => ctor("RErr", vec![]),
     }
@@ -118,6 +120,46 @@ fn find_linearization(init: &SeqState, ops: &[Op], rets: &[Ret], before: &[(usiz
     if go(init, ops, rets, before, final_docs, &mut done, &mut used, &mut budget) { Some(done) } else { None }
 }
 
+/// The read clause of the property, for reads that are not strictly linearizable with an in-flight writer:
+/// find an order of the MUTATIONS (respecting real time, reproducing their returns and the documents read after
+/// quiescence) such that every read returned the document as it was after some prefix of that order which
+/// contains every mutation acknowledged before the read started and only mutations started before it returned.
+/// times[i] = (start position, return position) in the trace.
+fn find_weak(init: &SeqState, ops: &[Op], rets: &[Ret], times: &[(usize, usize)], final_docs: &BTreeMap<u64, (u64, u64)>) -> Option<Vec<usize>> {
+    let writes: Vec<usize> = (0..ops.len()).filter(|i| ops[*i].is_mutating()).collect();
+    let reads: Vec<usize> = (0..ops.len()).filter(|i| matches!(ops[*i], Op::Get { .. })).collect();
+    fn reads_ok(init: &SeqState, ops: &[Op], rets: &[Ret], times: &[(usize, usize)], order: &[usize], reads: &[usize]) -> bool {
+        // states after each prefix
+        let mut states = vec![init.clone()];
+        let mut st = init.clone();
+        for i in order { let mut s2 = st.clone(); seq_apply(&mut s2, &ops[*i], &rets[*i]); st = s2; states.push(st.clone()); }
+        reads.iter().all(|r| {
+            let (rs, re) = times[*r];
+            let lo = order.iter().enumerate().filter(|(_, w)| times[**w].1 < rs).map(|(k, _)| k + 1).max().unwrap_or(0);
+            (lo..=order.len()).any(|k| order[..k].iter().all(|w| times[*w].0 < re) && { let mut s2 = states[k].clone(); seq_apply(&mut s2, &ops[*r], &rets[*r]) })
+        })
+    }
+    fn go(st: &SeqState, init: &SeqState, ops: &[Op], rets: &[Ret], times: &[(usize, usize)], fin: &BTreeMap<u64, (u64, u64)>, writes: &[usize], reads: &[usize],
+          done: &mut Vec<usize>, used: &mut Vec<bool>, budget: &mut u64) -> bool {
+        if done.len() == writes.len() { return &st.0 == fin && reads_ok(init, ops, rets, times, done, reads); }
+        if *budget == 0 { return false; }
+        *budget -= 1;
+        for (k, i) in writes.iter().enumerate() {
+            if used[k] { continue; }
+            // real time among mutations: everything that returned before i started must already be placed
+            if writes.iter().enumerate().any(|(k2, j)| !used[k2] && k2 != k && times[*j].1 < times[*i].0) { continue; }
+            let mut st2 = st.clone();
+            if !seq_apply(&mut st2, &ops[*i], &rets[*i]) { continue; }
+            used[k] = true; done.push(*i);
+            if go(&st2, init, ops, rets, times, fin, writes, reads, done, used, budget) { return true; }
+            used[k] = false; done.pop();
+        }
+        false
+    }
+    let mut done = vec![]; let mut used = vec![false; writes.len()]; let mut budget = 2_000_000u64;
+    if go(init, init, ops, rets, times, final_docs, &writes, &reads, &mut done, &mut used, &mut budget) { Some(done) } else { None }
+}
+
 struct Out { lines: Vec<Value>, failures: Vec<Value>, evaluations: u64, dist: BTreeMap<String, u64>, model_every: u64, seen: u64 }
 impl Out {
     fn fail(&mut self, class: &str, what: String, input: Value) { if self.failures.len() < 30 { self.failures.push(json!({"class": class, "what": what, "input": input})); } }
@@ -130,17 +172,42 @@ fn init_state() -> SeqState {
     (docs, used)
 }
 
-/// one explorer run; returns false if the odometer-driven schedule hit the step limit
-fn run_once(out: &mut Out, ops: &[Op], cache: bool, post: bool, odo: &mut Odometer, rng: Option<&mut Rng>, always_emit: bool) {
+/// every document version of `id` that some call wrote (initial, added, or the result of an update)
+fn versions(ops: &[Op], rets: &[Ret]) -> BTreeMap<u64, Vec<(u64, u64)>> {
+    let mut v: BTreeMap<u64, Vec<(u64, u64)>> = BTreeMap::new();
+    for (i, d) in DOCS.iter().enumerate() { v.entry(i as u64 + 1).or_default().push(*d); }
+    for (o, r) in ops.iter().zip(rets) {
+        match (o, r) {
+            (Op::Add { a, b }, Ret::Id(i)) => v.entry(*i).or_default().push((*a, *b)),
+            (Op::Update { id, .. }, Ret::Doc(a, b)) => v.entry(*id).or_default().push((*a, *b)),
+            _ => {}
+        }
+    }
+    v
+}
+
+/// one explorer run: `first` operations start at time 0 in index order, `late` ones as soon as the
+/// first call has returned (so that real-time order constraints exist)
+fn run_once(out: &mut Out, first: &[Op], late: &[Op], cache: bool, post: bool, odo: &mut Odometer, rng: Option<&mut Rng>, always_emit: bool) {
+    let ops: Vec<Op> = first.iter().chain(late.iter()).cloned().collect();
+    let ops = &ops[..];
     let w = World::new(cache, true, &DOCS);
     { let mut st = w.store.st.lock().unwrap(); st.mode = Mode::Park; st.post_park = post; st.trace.clear(); }
     let mut run = Run::new(w);
-    for op in ops { let id = run.add_actor(op.clone()); run.w.store.st.lock().unwrap().trace.push(Tr::Issue { op: id, kind: "start", path: String::new() }); run.start(id); }
+    for op in ops { run.add_actor(op.clone()); }
+    let start = |run: &mut Run, id: i64| { run.w.store.st.lock().unwrap().trace.push(Tr::Issue { op: id, kind: "start", path: String::new() }); run.start(id); };
+    for id in 0..first.len() { start(&mut run, id as i64); }
+    let mut late_started = late.is_empty();
     odo.begin();
     let mut rng = rng;
     let mut step = 0usize;
     let mut sched: Vec<String> = vec![];
-    while !run.all_done() {
+    loop {
+        if !late_started && run.actors.iter().any(|a| a.ret.is_some()) {
+            for id in first.len()..ops.len() { start(&mut run, id as i64); }
+            late_started = true;
+        }
+        if run.all_done() && late_started { break; }
         let en = run.enabled();
         if en.is_empty() { break; }
         let c = match rng.as_deref_mut() { Some(r) => r.below(en.len() as u64) as usize, None => odo.pick(step, en.len()) };
@@ -151,10 +218,11 @@ fn run_once(out: &mut Out, ops: &[Op], cache: bool, post: bool, odo: &mut Odomet
     }
     out.evaluations += 1;
     let rets: Vec<Ret> = run.actors.iter().map(|a| a.ret.clone().unwrap_or(Ret::Err("pending".into()))).collect();
-    let input = json!({"ops": ops.iter().map(|o| format!("{o:?}")).collect::<Vec<_>>(), "cache": cache, "post_park": post, "schedule": sched,
-                       "returns": rets.iter().map(|r| r.show()).collect::<Vec<_>>()});
-    if !run.all_done() { out.fail("deadlock", "no parked call left but operations are pending".into(), input); return; }
+    let input = json!({"ops": first.iter().map(|o| format!("{o:?}")).collect::<Vec<_>>(), "late_ops": late.iter().map(|o| format!("{o:?}")).collect::<Vec<_>>(),
+                       "cache": cache, "post_park": post, "schedule": sched, "returns": rets.iter().map(|r| r.show()).collect::<Vec<_>>()});
+    if !(run.all_done() && late_started) { out.fail("deadlock", "no parked call left but operations are pending".into(), input); return; }
     run.w.store.set_mode(Mode::Pass);
+    // reads that start after every call has returned: through the handle (and its read cache)
     let (ids, docs) = dump(&run.w.coll);
     let input = { let mut i = input; i["final_ids"] = json!(ids); i["final_docs"] = json!(docs.iter().map(|(k, v)| format!("{k}:{v:?}")).collect::<Vec<_>>()); i };
     // ---- direct oracles
@@ -168,54 +236,117 @@ fn run_once(out: &mut Out, ops: &[Op], cache: bool, post: bool, odo: &mut Odomet
         let n = ops.iter().zip(&rets).filter(|(p, r)| matches!(p, Op::Remove { id: j } if j == id) && matches!(r, Ret::Doc(..))).count();
         if n > 1 { out.fail("remove-returned-twice", format!("{n} removes of id {id} returned the document"), input.clone()); } } }
     if let Some(bad) = rets.iter().position(|r| matches!(r, Ret::Err(_) | Ret::Lifecycle(_) | Ret::ReadOnly)) { out.fail("unexpected-error", format!("{:?} returned {:?}", ops[bad], rets[bad]), input.clone()); }
-    let lin = find_linearization(&init_state(), ops, &rets, &[], &docs);
-    if lin.is_none() { out.fail("not-linearizable", "no sequential order reproduces the return values and the final documents".into(), input.clone()); }
-    // reopen: what was persisted is a consistent collection containing the same documents after a flush
+    // reads only ever return whole documents that some call wrote
+    let vers = versions(ops, &rets);
+    for (o, r) in ops.iter().zip(&rets) {
+        match (o, r) {
+            (Op::Get { id }, Ret::Doc(a, b)) => if !vers.get(id).map(|v| v.contains(&(*a, *b))).unwrap_or(false) {
+                out.fail("read-returns-unwritten-document", format!("get({id}) returned ({a},{b}), never written by any call"), input.clone()); },
+            (Op::QueryIds { a }, Ret::Ids(v)) => for id in v { if !vers.get(id).map(|vs| vs.iter().any(|d| d.0 == *a)).unwrap_or(false) {
+                out.fail("query-returns-unjustified-id", format!("query a={a} returned id {id} which never had that value"), input.clone()); } },
+            _ => {}
+        }
+    }
+    for (id, d) in &docs { if !vers.get(id).map(|v| v.contains(d)).unwrap_or(false) { out.fail("read-returns-unwritten-document", format!("final get({id}) returned {d:?}, never written"), input.clone()); } }
+    // real-time order: Return(a) logged before Start(b)
+    let mut before: Vec<(usize, usize)> = vec![];
+    let strong: Vec<usize> = (0..ops.len()).filter(|i| !matches!(ops[*i], Op::QueryIds { .. })).collect();
+    { let st = run.w.store.st.lock().unwrap();
+      let mut returned: Vec<usize> = vec![];
+      for t in &st.trace { match t {
+          Tr::Return { op, .. } => returned.push(*op as usize),
+          Tr::Issue { op, kind: "start", .. } => for a in &returned { before.push((*a, *op as usize)); },
+          _ => {} } } }
+    // the linearization is searched over everything except the index-only reads
+    let s_ops: Vec<Op> = strong.iter().map(|i| ops[*i].clone()).collect();
+    let s_rets: Vec<Ret> = strong.iter().map(|i| rets[*i].clone()).collect();
+    let pos = |i: usize| strong.iter().position(|x| *x == i);
+    let s_before: Vec<(usize, usize)> = before.iter().filter_map(|(a, b)| Some((pos(*a)?, pos(*b)?))).collect();
+    let lin = find_linearization(&init_state(), &s_ops, &s_rets, &s_before, &docs).map(|o| o.iter().map(|k| strong[*k]).collect::<Vec<usize>>());
+    let mut weak: Option<Vec<usize>> = None;
+    if lin.is_none() {
+        // trace positions of start / return of every operation
+        let times: Vec<(usize, usize)> = { let st = run.w.store.st.lock().unwrap();
+            (0..ops.len()).map(|i| {
+                let s0 = st.trace.iter().position(|t| matches!(t, Tr::Issue { op, kind: "start", .. } if *op == i as i64)).unwrap_or(0);
+                let r0 = st.trace.iter().position(|t| matches!(t, Tr::Return { op, .. } if *op == i as i64)).unwrap_or(usize::MAX);
+                (s0, r0) }).collect() };
+        weak = find_weak(&init_state(), ops, &rets, &times, &docs);
+        if weak.is_none() {
+            out.fail("not-linearizable", "no order of the mutations respecting real time reproduces their return values and the documents read after quiescence such that every read returned a document state not older than the mutations acknowledged before it started".into(), input.clone());
+        } else { out.bump("runs_with_reads_overlapping_an_unacknowledged_write_not_strictly_linearizable"); }
+    }
     // ---- model cases
     out.seen += 1;
     let emit = always_emit || out.seen % out.model_every == 0;
-    if !emit { return; }
+    if !emit || strong.len() != ops.len() { return; }
     let st = run.w.store.st.lock().unwrap();
     let docs0 = init_state().0;
-    if !cache {
+    // which gets were served by the read cache (no backend GET), and did one of them start while a write of the
+    // same document was applied but not yet delivered (the entry is then legitimately the pre-write one)?
+    let mut hit = vec![false; ops.len()];
+    let mut window_hit = false;
+    for (i, o) in ops.iter().enumerate() { if let Op::Get { id } = o {
+        let miss = st.trace.iter().any(|t| matches!(t, Tr::Apply(e) if e.op == i as i64 && e.kind == "get" && doc_id_of(&e.path) == Some(*id)));
+        hit[i] = !miss;
+        if hit[i] {
+            let mut open: Vec<(i64, u64)> = vec![];
+            for t in &st.trace { match t {
+                Tr::Apply(e) if e.ok && (e.kind == "put" || e.kind == "delete") => if let Some(d) = doc_id_of(&e.path) { open.push((e.op, d)); },
+                Tr::Resume { op } => open.retain(|(o2, _)| o2 != op),
+                Tr::Issue { op, kind: "start", .. } if *op == i as i64 => { if post && open.iter().any(|(_, d)| d == id) { window_hit = true; } }
+                _ => {} } }
+        } } }
+    if window_hit { out.bump("runs_with_cache_hit_inside_a_write_window(not given to admits)"); }
+    if !window_hit {
         let mut evs: Vec<Value> = vec![];
         for t in &st.trace {
             match t {
                 Tr::Issue { op, kind: "start", .. } => evs.push(ctor("EvStart", vec![nat(*op as usize)])),
                 Tr::Issue { .. } => {}
                 Tr::Apply(e) => if e.op >= 0 { if let Some(l) = jlabel(e, ops) { evs.push(ctor("EvApply", vec![nat(e.op as usize), l])); } },
-                Tr::Resume { op } => {
-                    // only the resumes of calls the model speaks about were preceded by an EvApply; the
-                    // replay ignores resumes of threads that are not waiting
-                    evs.push(ctor("EvResume", vec![nat(*op as usize)]));
-                }
+                Tr::Resume { op } => evs.push(ctor("EvResume", vec![nat(*op as usize)])),
                 Tr::Return { op, .. } => evs.push(ctor("EvReturn", vec![nat(*op as usize), jret(&ops[*op as usize], &rets[*op as usize])])),
             }
         }
+        let jops: Vec<Value> = ops.iter().enumerate().map(|(i, o)| jop_hit(o, hit[i])).collect();
         out.lines.push(json!({"kind": "model", "fn": "check_admits",
-            "case": tup(vec![jdocs(&docs0), Value::Array(ops.iter().map(jop).collect()), json!(post), Value::Array(evs), jdocs(&docs)]), "input": input.clone()}));
+            "case": tup(vec![jdocs(&docs0), Value::Array(jops), json!(post), Value::Array(evs), jdocs(&docs)]), "input": input.clone()}));
     }
     if let Some(order) = lin {
         let hist: Vec<Value> = order.iter().map(|i| tup(vec![nat(*i), jop(&ops[*i]), jret(&ops[*i], &rets[*i])])).collect();
+        let prec: Vec<Value> = before.iter().map(|(a, b)| tup(vec![nat(*a), nat(*b)])).collect();
         out.lines.push(json!({"kind": "model", "fn": "check_lin",
-            "case": tup(vec![jdocs(&docs0), Value::Array(hist), Value::Array(vec![]), nat(ops.len()), jdocs(&docs)]), "input": input}));
+            "case": tup(vec![jdocs(&docs0), Value::Array(hist), Value::Array(prec), nat(ops.len()), jdocs(&docs)]), "input": input}));
+    } else if let Some(order) = weak {
+        // the mutations alone, renumbered
+        let num = |i: usize| order.iter().position(|x| *x == i);
+        let mut sorted = order.clone(); sorted.sort();
+        let idx = |i: usize| sorted.iter().position(|x| *x == i);
+        let _ = num;
+        let hist: Vec<Value> = order.iter().map(|i| tup(vec![nat(idx(*i).unwrap()), jop(&ops[*i]), jret(&ops[*i], &rets[*i])])).collect();
+        let prec: Vec<Value> = before.iter().filter_map(|(a, b)| Some(tup(vec![nat(idx(*a)?), nat(idx(*b)?)]))).collect();
+        out.lines.push(json!({"kind": "model", "fn": "check_lin",
+            "case": tup(vec![jdocs(&docs0), Value::Array(hist), Value::Array(prec), nat(order.len()), jdocs(&docs)]), "input": input}));
     }
 }
 
-fn explore_set(out: &mut Out, ops: &[Op], cache: bool, post: bool, cap: usize, rng: &mut Rng) {
+fn explore_set(out: &mut Out, first: &[Op], late: &[Op], cache: bool, post: bool, cap: usize, rng: &mut Rng) {
     let mut odo = Odometer::default();
     let mut n = 0usize;
+    let k = first.len() + late.len();
     loop {
-        run_once(out, ops, cache, post, &mut odo, None, n == 0);
+        run_once(out, first, late, cache, post, &mut odo, None, n == 0);
         n += 1;
-        if !odo.next() { out.bump(&format!("sets_exhaustive:{}", ops.len())); break; }
+        if !odo.next() { out.bump(&format!("sets_exhaustive:{k}")); break; }
         if n >= cap {
-            for _ in 0..cap / 2 { let mut r = rng.fork(); run_once(out, ops, cache, post, &mut Odometer::default(), Some(&mut r), false); }
-            out.bump(&format!("sets_sampled:{}", ops.len()));
+            for _ in 0..cap / 2 { let mut r = rng.fork(); run_once(out, first, late, cache, post, &mut Odometer::default(), Some(&mut r), false); }
+            out.bump(&format!("sets_sampled:{k}"));
             break;
         }
     }
-    *out.dist.entry(format!("runs:{}ops", ops.len())).or_insert(0) += n as u64;
+    *out.dist.entry(format!("runs:{k}ops")).or_insert(0) += n as u64;
+    if first.iter().chain(late).any(|o| !o.is_mutating()) { *out.dist.entry("runs_with_reads".into()).or_insert(0) += n as u64; }
 }
 
 // ------------------------------------------------------------------------------------------ multi-threaded
@@ -232,8 +363,9 @@ fn mt_runs(out: &mut Out, rounds: usize, nops: usize, rng: &mut Rng) {
                 0 | 1 | 2 => Op::Add { a: 100 + rng.below(5), b: rng.below(5) },
                 3 | 4 => Op::Update { id, a: Some(200 + rng.below(5)), b: None },
                 5 | 6 => Op::Update { id, a: None, b: Some(50 + rng.below(50)) },
-                7 | 8 => Op::Remove { id },
-                _ => Op::Flush,
+                7 => Op::Remove { id },
+                8 => Op::Get { id },
+                _ => if rng.chance(1, 2) { Op::Flush } else { Op::Get { id } },
             });
         }
         // two waves so that real-time order constraints exist
@@ -277,7 +409,16 @@ fn mt_runs(out: &mut Out, rounds: usize, nops: usize, rng: &mut Rng) {
         if ids != docs.keys().cloned().collect::<Vec<_>>() { out.fail("ids-without-document", format!("ids {:?} vs documents {:?}", ids, docs.keys()), input.clone()); }
         if let Some(bad) = rets.iter().position(|r| matches!(r, Ret::Err(_) | Ret::Lifecycle(_) | Ret::ReadOnly)) { out.fail("unexpected-error", format!("{:?} returned {:?}", ops[bad], rets[bad]), input.clone()); }
         match find_linearization(&init_state(), &ops, &rets, &before, &docs) {
-            None => out.fail("not-linearizable", "no order respecting real time reproduces the return values and the final documents".into(), input.clone()),
+            None => {
+                let times: Vec<(usize, usize)> = { let st = w.store.st.lock().unwrap();
+                    (0..ops.len()).map(|i| {
+                        let s0 = st.trace.iter().position(|t| matches!(t, Tr::Issue { op, kind: "start", .. } if *op == i as i64)).unwrap_or(0);
+                        let r0 = st.trace.iter().position(|t| matches!(t, Tr::Return { op, .. } if *op == i as i64)).unwrap_or(usize::MAX);
+                        (s0, r0) }).collect() };
+                if find_weak(&init_state(), &ops, &rets, &times, &docs).is_none() {
+                    out.fail("not-linearizable", "no order respecting real time reproduces the return values and the final documents (reads judged by the acknowledged-write rule)".into(), input.clone());
+                } else { out.bump("runs_with_reads_overlapping_an_unacknowledged_write_not_strictly_linearizable"); }
+            }
             Some(order) => {
                 let hist: Vec<Value> = order.iter().map(|i| tup(vec![nat(*i), jop(&ops[*i]), jret(&ops[*i], &rets[*i])])).collect();
                 let prec: Vec<Value> = before.iter().map(|(a, b)| tup(vec![nat(*a), nat(*b)])).collect();
@@ -302,20 +443,38 @@ pub fn main(args: &[String]) {
     // all ordered pairs, parked before and after every backend call, cache off (trace-level checker)
     for a in &pool { for b in &pool {
         if matches!(a, Op::Flush) && matches!(b, Op::Flush) { continue; }
-        explore_set(&mut out, &[a.clone(), b.clone()], false, true, cap, &mut rng);
+        explore_set(&mut out, &[a.clone(), b.clone()], &[], false, true, cap, &mut rng);
     } }
     // the same-document pairs again with the read cache on (history-level checker only)
-    for a in &pool[2..7] { for b in &pool[2..7] { explore_set(&mut out, &[a.clone(), b.clone()], true, true, cap / 2, &mut rng); } }
+    for a in &pool[2..7] { for b in &pool[2..7] { explore_set(&mut out, &[a.clone(), b.clone()], &[], true, true, cap / 2, &mut rng); } }
+    // overlapping reads, read cache ON, every backend call (the GETs included) parked before it is applied and again
+    // before its result is delivered
+    let reads = vec![Op::Get { id: 1 }, Op::Get { id: 2 }, Op::Get { id: 9 }, Op::QueryIds { a: 72 }, Op::QueryIds { a: 10 }];
+    let writes: Vec<Op> = pool[0..7].to_vec();
+    for r in &reads { for w in &writes {
+        explore_set(&mut out, &[r.clone(), w.clone()], &[], true, true, cap / 2, &mut rng);
+        explore_set(&mut out, &[w.clone(), r.clone()], &[], true, true, cap / 2, &mut rng);
+        // a reader that starts only after the first of the two has returned
+        explore_set(&mut out, &[w.clone(), r.clone()], &[Op::Get { id: 1 }], true, true, cap / 2, &mut rng);
+    } }
+    // read / write / read and two writers with a reader on the same document
+    for w in &pool[2..7] { for w2 in &pool[2..7] {
+        explore_set(&mut out, &[Op::Get { id: 1 }, w.clone(), w2.clone()], &[Op::Get { id: 1 }], true, true, cap / 3, &mut rng);
+    } }
+    let mut pool_rw = pool.clone();
+    pool_rw.extend(reads.iter().cloned());
     for _ in 0..triples {
-        let ops: Vec<Op> = (0..3).map(|_| rng.pick(&pool).clone()).collect();
+        let ops: Vec<Op> = (0..3).map(|_| rng.pick(&pool_rw).clone()).collect();
         if ops.iter().filter(|o| matches!(o, Op::Flush)).count() > 1 { continue; }
         let cache = rng.chance(1, 3);
-        explore_set(&mut out, &ops, cache, false, cap / 2, &mut rng);
+        let post = rng.chance(1, 2);
+        explore_set(&mut out, &ops, &[], cache, post, cap / 2, &mut rng);
     }
     for _ in 0..quads {
-        let ops: Vec<Op> = (0..4).map(|_| rng.pick(&pool).clone()).collect();
+        let ops: Vec<Op> = (0..4).map(|_| rng.pick(&pool_rw).clone()).collect();
         if ops.iter().filter(|o| matches!(o, Op::Flush)).count() > 1 { continue; }
-        explore_set(&mut out, &ops, rng.chance(1, 3), false, cap / 3, &mut rng);
+        let (first, late) = ops.split_at(3);
+        explore_set(&mut out, first, late, rng.chance(1, 2), false, cap / 3, &mut rng);
     }
     let explorer_runs = out.evaluations;
     let nops = if thorough { 10 } else { 7 };
